@@ -100,7 +100,7 @@ class System:
         return enf
 
     def _write(self, f, cid):
-        self.w.write(PATHS[f], world.dumps_policy(CONTENTS[f][cid]))
+        self.w.write(PATHS[f], world.dumps_policy(CONTENTS[f][cid], 'json'))
         self.content[f] = cid
 
     def enabled(self, force):
